@@ -54,7 +54,7 @@ func selectorSteps(g *gen.G, v jv.Val, n int) []ast.Step {
 // C17: equivalent ways of writing a query give the same answer.
 func TestC17_Identities(t *testing.T) {
 	c := collector("C17", "identities")
-	rapid.Check(t, func(t *rapid.T) {
+	check(t, func(t *rapid.T) {
 		doc := gen.Doc(t, docCfg())
 		c.Case()
 		cfg := gen.CoreCfg
